@@ -468,3 +468,95 @@ def py_hasattr(ex, args, kwargs, node):
     if isinstance(obj, Obj) and isinstance(name, str):
         return name in obj.fields or ex.class_member(obj.cls, name) is not None
     raise Unsupported("hasattr on a non-record object")
+
+
+# =============================================================================================
+# xarray.Dataset record (C07 encoders): vars / dims as symbolic mappings
+# =============================================================================================
+def _da_factory(owner):
+    def mk(ex, d, key):
+        da = make_dataarray(ex, f"{d.name}.{key}")
+        da.fields["attrs"] = SymDict(f"{d.name}.{key}.attrs", closed=False, owner=owner)
+        return da
+    return mk
+
+
+@factory("Dataset")
+def make_dataset(ex, name, env, owner="caller", **kw):
+    ds = Obj("Dataset")
+    ds.fields["vars"] = SymDict(name + ".vars", closed=False, owner=owner)
+    ds.fields["vars"].ghost["entry_factory"] = _da_factory(owner)
+    ds.fields["dims"] = SymDict(name + ".dims", closed=False, owner=owner)
+    ds.ghost["owner"] = owner
+    return ds
+
+
+def _fresh_clone(ex, obj):
+    """a copy whose containers are new objects (shallow Dataset.copy / DataArray.copy(deep=False): variables and attribute
+    dicts are new, the data arrays are shared)"""
+    c = V.clone(obj, {})
+
+    def mark(o):
+        if isinstance(o, Obj):
+            o.ghost["owner"] = "fresh"
+            o.ident = z3.Const(fresh_name(o.cls), USORT)
+            for v in o.fields.values():
+                mark(v)
+        elif isinstance(o, SymDict):
+            o.ghost["owner"] = "fresh"
+            if o.ghost.get("entry_factory") is not None:
+                o.ghost["entry_factory"] = _da_factory("fresh")
+            for k, (p, v) in o.entries.items():
+                mark(v)
+    mark(c)
+    if isinstance(obj, Obj):
+        # a newly created object is distinct from every object seen so far on this path
+        seen = getattr(ex.st, "_known_idents", None)
+        if seen is None:
+            seen = ex.st._known_idents = []
+        if not any(z3.eq(obj.ident, x) for x in seen):
+            seen.append(obj.ident)
+        for x in seen:
+            ex.assume(c.ident != x)
+        seen.append(c.ident)
+    return c
+
+
+def _ds_copy(ex, obj, args, kwargs, node, env, fr):
+    if obj.cls not in ("Dataset", "DataArray"):
+        raise Unsupported(f"copy of {obj.cls}")
+    trusted(ex, "xarray copy(deep=False): a new object with new variable / attribute containers")
+    return _fresh_clone(ex, obj)
+
+
+def _ds_drop_vars(ex, obj, args, kwargs, node, env, fr):
+    trusted(ex, "xarray.Dataset.drop_vars: a new dataset without the named variables")
+    c = _fresh_clone(ex, obj)
+    names = args[0] if isinstance(args[0], (list, tuple)) else [args[0]]
+    for nme in names:
+        c.fields["vars"].entries[nme] = [False, V.UNSET]
+    return c
+
+
+for _c in ("Dataset", "DataArray"):
+    METHODS[(_c, "call:copy")] = _ds_copy
+METHODS[("Dataset", "call:drop_vars")] = _ds_drop_vars
+
+
+@model("builtins.dict")
+def py_dict(ex, args, kwargs, node):
+    if not args:
+        return dict(kwargs)
+    (m,) = args
+    if isinstance(m, dict):
+        return dict(m)
+    if isinstance(m, SymDict) and m.closed and all(p is True for p, _ in m.entries.values()):
+        return {k: v for k, (p, v) in m.entries.items()}     # a NEW python dict (the source mapping is left alone)
+    raise Unsupported("dict() of a symbolic mapping")
+
+
+@method("SymDict", "call:items")
+def symdict_items(ex, obj, args, kwargs, node, env, fr):
+    if obj.closed and all(p is True for p, _ in obj.entries.values()):
+        return [(k, v) for k, (p, v) in obj.entries.items()]
+    raise Unsupported("items() of a symbolic mapping")
